@@ -208,7 +208,42 @@ func (E *Engine) encodeOnce(key string, preset map[string]string, presetTypes []
 	f.postconditions()
 	f.throwObligations()
 	f.unwindObligations()
+	f.applySplits()
 	return enc, nil
+}
+
+// applySplits: "split e" clauses - every obligation of the function is decided separately
+// under e and under !e (e over the entry state); it holds iff all cases hold.  Keeps hard
+// floating-point obligations small; purely a proof-search device.
+func (f *frame) applySplits() {
+	fc := f.contract
+	if len(fc.Split) == 0 {
+		return
+	}
+	var conds []string
+	for _, sp := range fc.Split {
+		cl := &Clause{Kind: "split", Text: sp, Func: fc.Key, File: fc.File, Line: fc.Line}
+		conds = append(conds, f.enc.define(f.enc.fresh("split"), "Bool", f.evalContractBool(cl, f.entryHeap, nil, f.entryHeap)))
+	}
+	nd := len(f.enc.decls)
+	for _, o := range f.enc.obls {
+		if o.Trivial || o.Kind == "cover" {
+			continue
+		}
+		parts := o.Parts
+		if len(parts) == 0 {
+			parts = []oblPart{{PC: o.PC, Cond: o.Cond}}
+		}
+		for _, c := range conds {
+			var np []oblPart
+			for _, p := range parts {
+				np = append(np, oblPart{PC: and(p.PC, c), Cond: p.Cond}, oblPart{PC: and(p.PC, not(c)), Cond: p.Cond})
+			}
+			parts = np
+		}
+		o.Parts = parts
+		o.NDecls = nd
+	}
 }
 
 // selfBind: names visible in the function's own contract.
